@@ -64,3 +64,22 @@ Print Assumptions C10_own_query_under_any_schedule.
 Theorem C10_filter_writing_its_receiver_refuted :
   map f_result (threads (frun true (finit [7; 9]%nat) [0; 1; 0; 1]%nat)) = [Some 9; Some 9]%nat.
 Proof. exact writes_receiver_refuted. Qed.
+
+(* ---- the first use of the caches from several goroutines (Model/InitOnce.v) ---- *)
+From GJ Require Import Model.InitOnce Proofs.InitOnceP.
+(* initEncoder and initDecoder, as the translator read them: one Once.Do whose body ends with the allocation of the
+   cache slice, and nothing in front of or behind it *)
+Theorem C10_init_source_facts : enc_init_through_once_only = true /\ dec_init_through_once_only = true.
+Proof. split; reflexivity. Qed.
+(* any number of goroutines making the process's first calls, under EVERY schedule: whoever gets past the init
+   function and indexes the cache slice finds it allocated (encoder and decoder) *)
+Theorem C10_first_use_finds_the_cache : forall n schedule i ok,
+  nth_error (snd (InitOnce.run (negb enc_init_through_once_only) n schedule)) i = Some (Done ok) -> ok = true.
+Proof. rewrite (proj1 C10_init_source_facts). exact lookup_finds_the_cache. Qed.
+Theorem C10_decoder_first_use_finds_the_cache : forall n schedule i ok,
+  nth_error (snd (InitOnce.run (negb dec_init_through_once_only) n schedule)) i = Some (Done ok) -> ok = true.
+Proof. rewrite (proj2 C10_init_source_facts). exact lookup_finds_the_cache. Qed.
+Print Assumptions C10_first_use_finds_the_cache.
+(* a test of typeAddr in front of the Once lets the second goroutine through between the two assignments *)
+Theorem C10_test_in_front_of_the_once_refuted : nth_error (snd (InitOnce.run true 2 [0; 0; 1; 1]%nat)) 1 = Some (Done false).
+Proof. exact fast_path_refuted. Qed.
